@@ -270,6 +270,13 @@ fn check_script(rep: &mut Report, script: &[String], property: Option<&str>, dir
         }
         // ---------------- C11: CBOR ----------------
         if want("C11") {
+            // every third store: half of its resources and datasets are given stand-off file names first
+            let standoff = i % 3 == 2;
+            if standoff {
+                let (_, rslots, sslots) = store.verif_dump_slots();
+                for (h, l) in rslots.iter().enumerate() { if *l && (h + i) % 2 == 0 { let r: &mut TextResource = store.get_mut(TextResourceHandle::new(h)).unwrap(); r.set_filename(&format!("res{}.txt", h)); } }
+                for (h, l) in sslots.iter().enumerate() { if *l && (h + i) % 2 == 1 { let d: &mut AnnotationDataSet = store.get_mut(AnnotationDataSetHandle::new(h)).unwrap(); d.set_filename(&format!("set{}.dataset.stam.json", h)); } }
+            }
             let path = dir.join(format!("s{}.store.stam.cbor", i));
             let p = path.to_str().unwrap().to_string();
             let obs_before = observe(store);
@@ -322,6 +329,36 @@ fn check_script(rep: &mut Report, script: &[String], property: Option<&str>, dir
                         // identifiers switched on, a new annotation without identifier (on a new resource, with new
                         // data without identifier) gets identifiers of the same shape, and lands at the same handles
                         let mut st2 = st2;
+                        // what the two stores write as STAM JSON (stand-off files stay stand-off files)
+                        let js = |st: &AnnotationStore| guarded(std::panic::AssertUnwindSafe(|| st.to_json_string(st.config()).map_err(|e| format!("{}", e))));
+                        let (j1, j2) = (js(store), js(&st2));
+                        rep.count("cbor:json-of-decoded");
+                        if j1 != j2 {
+                            let a: Vec<String> = j1.clone().ok().and_then(|x| x.ok()).unwrap_or_default().lines().map(|l| l.to_string()).collect();
+                            let b: Vec<String> = j2.clone().ok().and_then(|x| x.ok()).unwrap_or_default().lines().map(|l| l.to_string()).collect();
+                            let (x, y) = first_diff(&a, &b);
+                            rep.fail("oracle", &format!("C11/json-of-decoded-store-differs/{}", if x.contains("@include") || y.contains("@include") { "include" } else { "other" }), ctx.clone(), &x, &y);
+                        }
+                        // and what they write to STAM JSON files (the store file: @include or inline must agree)
+                        if standoff {
+                            let write = |st: &mut AnnotationStore, tag: &str| -> Result<String, String> {
+                                let sub = dir.join(format!("cj{}{}", i, tag));
+                                std::fs::create_dir_all(&sub).ok();
+                                let f = sub.join("x.store.stam.json");
+                                let r = guarded(std::panic::AssertUnwindSafe(|| { st.set_filename(f.to_str().unwrap()); st.save().map_err(|e| format!("{}", e)) })).and_then(|r| r);
+                                let text = std::fs::read_to_string(&f).unwrap_or_default();
+                                std::fs::remove_dir_all(&sub).ok();
+                                r.map(|_| text)
+                            };
+                            let (f1, f2) = (write(store, "a"), write(&mut st2, "b"));
+                            rep.count("cbor:json-files-of-decoded");
+                            if f1 != f2 {
+                                let a: Vec<String> = f1.clone().unwrap_or_else(|e| format!("error: {}", e)).lines().map(|l| l.to_string()).collect();
+                                let b: Vec<String> = f2.clone().unwrap_or_else(|e| format!("error: {}", e)).lines().map(|l| l.to_string()).collect();
+                                let (x, y) = first_diff(&a, &b);
+                                rep.fail("oracle", &format!("C11/json-file-of-decoded-store-differs/{}", if x.contains("@include") || y.contains("@include") { "include" } else { "other" }), ctx.clone(), &x, &y);
+                            }
+                        }
                         let probe = |st: &mut AnnotationStore| -> Result<String, String> {
                             guarded(std::panic::AssertUnwindSafe(|| {
                                 let cfg = st.config().clone().with_generate_ids(true);
